@@ -287,14 +287,14 @@ func etaFamily(tier string) *FamilySpec {
 
 func init() {
 	OptFamilies = func(tier string) []*FamilySpec {
-		return []*FamilySpec{etaFamily(tier), importFamily(tier), bystanderFamily(tier)}
+		return []*FamilySpec{etaFamily(tier), importFamily(tier), bystanderFamily(tier), bystander2Family(tier)}
 	}
 }
 
 // C13 — code that is not a generator is behaviourally unchanged.
 func C13(tier string) *core.Report {
 	r := core.NewReport("C13", tier)
-	fams := []*FamilySpec{etaFamily(tier), bystanderFamily(tier), importFamily(tier)}
+	fams := []*FamilySpec{etaFamily(tier), bystanderFamily(tier), bystander2Family(tier), importFamily(tier)}
 	for _, fr := range runFamilies(r, fams, tier) {
 		for _, f := range fr.Divergences("lockstep", "panic", "lockstep-under-panic", "fatal", "nondet", "nondet-ref") {
 			r.Fail(f)
